@@ -69,6 +69,37 @@ func checkC13(r *evid.Run) {
 				apiReplayRec{Hist: a.Hist, Conc: c, Variant: a.N})
 		}
 	})
+	// Mkdir of the same tree again and again (each time into a fresh directory), with Adds in between
+	runApiModel(r, "MC_C13_mkdir.cfg", timeout, func(a *apiState) {
+		if len(a.Hist) == 0 || a.Hist[len(a.Hist)-1].Op != "Op" {
+			return
+		}
+		c := fsConc(a.N)
+		d, kind := replayHistory(a, c, false)
+		r.Count("real_calls", len(a.Hist))
+		r.Count("mkdir_histories", 1)
+		if d != "" {
+			r.Mismatch("api-history:"+kind, fmt.Sprintf("history [%s] conc=%s: %s", histString(a.Hist), c.Name, d),
+				apiReplayRec{Hist: a.Hist, Conc: c, Variant: a.N})
+		}
+	})
+	// iterators created at one point of the history and ranged over later (possibly repeatedly), with Adds and
+	// other operations (other branch strings) in between
+	runApiModel(r, "MC_C13_iters.cfg", timeout, func(a *apiState) {
+		if len(a.Hist) == 0 || a.Hist[len(a.Hist)-1].Op != "Range" {
+			return
+		}
+		c := concs[a.N%len(concs)]
+		apiMu.Lock()
+		d, kind := replayHistory(a, c, false)
+		apiMu.Unlock()
+		r.Count("real_calls", len(a.Hist))
+		r.Count("deferred_iterator_histories", 1)
+		if d != "" {
+			r.Mismatch("api-history:"+kind, fmt.Sprintf("history [%s] conc=%s: %s", histString(a.Hist), c.Name, d),
+				apiReplayRec{Hist: a.Hist, Conc: c, Variant: a.N})
+		}
+	})
 	// beyond the bound: long random histories (wide fan-out, several trees) validated by TLC (TraceApi.tla)
 	if r.Tier == "thorough" {
 		traceAPIHistories(r, 400, 60)
